@@ -105,6 +105,8 @@ class CFG:
         self.nodes.append(n)
         if astnode is not None:
             self._by_ast.setdefault(id(astnode), []).append(n)
+        elif stmt is not None:
+            self._by_ast.setdefault(id(stmt), []).append(n)
         return n
 
     def _edge(self, a, b, label):
